@@ -105,6 +105,8 @@ var ledgerSpecs = []ledgerSpec{
 			{"fractional-amounts", ledger.Cfg{Nodes: []string{"G"}, Supply: sp(10, 0), Menu: []ledger.TxSpec{tx("fa", "R", "A", 5, 200_000_000_000_000_000), tx("fb", "A", "B", 5, 700_000_000_000_000_000),
 				tx("fc", "B", "A", 0, 400_000_000_000_000_000), tx("fd", "B", "A", 0, 400_000_000_000_000_001), t7}, Props: only("C02")}, d, 0, 0},
 			{"pay-genesis-wallet", ledger.Cfg{Nodes: []string{"G"}, Supply: sp(10, 0), Menu: []ledger.TxSpec{t1, t11, t3}, Props: only("C02")}, d, 0, 0},
+			// a wallet pays itself: the amount is income and spending at once (A holds 6, pays itself 5, then tries to pay 9)
+			{"self-payment", ledger.Cfg{Nodes: []string{"G"}, Supply: sp(10, 0), Menu: []ledger.TxSpec{t1, tx("sp5", "A", "A", 5, 0), tx("sb9", "A", "B", 9, 0), tx("sp20", "B", "B", 20, 0), t7}, Props: only("C02")}, d, 0, 0},
 		}
 	}},
 	{id: "C03", level: "model_checking", runs: func(tier string) []ledgerRun {
